@@ -158,6 +158,16 @@ def h_real_verify(ctx, L, nv=2, twin=None):
         pks = [k.verify_key.encode() for k in sks]
         saved = None
         genuine = sks[0].sign(payload).signature
+    if L >= 64:
+        # so that a counterexample found over the idealised Ed25519 can be replayed with the real one: `forge` says whether the
+        # first 64 bytes of the field are the valid signature of the REST of the field (a nacl "signed message"); the replay
+        # then builds exactly that with the real signing key
+        forge = ctx.boolean('forge')
+        if ctx.symbolic:
+            ctx.assume(Iff(forge, sig[:64] == F(pks[0], sig[64:])))
+        elif forge:
+            rest = bytes(sig[64:])
+            sig = sks[0].sign(rest).signature + rest
     nodes = [ValidatorDescr('validator', SigPubKey(pks[i]), weights[i]) for i in range(nv)]
     sigs = [dict(node_id_short=node_id(pks[0]).hex(), signature=sig)]
     saved_cp = CP.verify_sign
